@@ -299,6 +299,7 @@ func c13Subjects() []c13Subject {
 				_ = iv.Close()
 			}},
 			{"MarshalJSON", func(g, i int) { _, _ = m.MarshalJSON() }},
+			{"Swap", func(g, i int) { _, _ = m.Swap(i%16, i) }},
 		}, func() {}
 	}})
 	// ---- adt.Atomic / Synchronized / Once / Pool -------------------------------
@@ -309,6 +310,8 @@ func c13Subjects() []c13Subject {
 			{"Get", func(g, i int) { _ = a.Get() }},
 			{"Swap", func(g, i int) { _ = a.Swap(i) }},
 			{"CompareAndSwap", func(g, i int) { _ = adt.CompareAndSwap[int](a, i, i+1) }},
+			{"SafeSet", func(g, i int) { adt.SafeSet[int](a, i%3) }},
+			{"Reset", func(g, i int) { _ = adt.Reset[int](a) }},
 		}, func() {}
 	}})
 	subs = append(subs, c13Subject{"adt.Synchronized", func() ([]c13Driver, func()) {
@@ -323,6 +326,20 @@ func c13Subjects() []c13Subject {
 			{"String", func(g, i int) { _ = n.String() }},
 			{"Using", func(g, i int) { n.Using(func() {}) }},
 			{"CompareAndSwap", func(g, i int) { _ = adt.CompareAndSwap[int](n, i, i+1) }},
+			{"SafeSet", func(g, i int) { adt.SafeSet[int](n, i%3) }},
+		}, func() {}
+	}})
+	subs = append(subs, c13Subject{"adt.Accessors", func() ([]c13Driver, func()) {
+		// getter / setter pairs over plain state, guarded only by the lock the
+		// library wraps around them
+		st, st2 := &guarded{}, &guarded{}
+		get, set := adt.AccessorsWithLock(fun.Future[int](func() int { return guardedRead(st) }), fun.Handler[int](func(int) { guardedTouch(st) }))
+		rget, rset := adt.AccessorsWithReadLock(fun.Future[int](func() int { return guardedRead(st2) }), fun.Handler[int](func(int) { guardedTouch(st2) }))
+		return []c13Driver{
+			{"WithLock getter", func(g, i int) { _ = get() }},
+			{"WithLock setter", func(g, i int) { set(i) }},
+			{"WithReadLock getter", func(g, i int) { _ = rget() }},
+			{"WithReadLock setter", func(g, i int) { rset(i) }},
 		}, func() {}
 	}})
 	subs = append(subs, c13Subject{"adt.Once", func() ([]c13Driver, func()) {
@@ -341,10 +358,13 @@ func c13Subjects() []c13Subject {
 		p.SetConstructor(func() *guarded { return &guarded{} })
 		p.SetCleanupHook(func(g *guarded) *guarded { g.n = 0; return g })
 		p.FinalizeSetup()
+		bufs, sl := adt.MakeBytesBufferPool(16), adt.DefaultBufferPool()
 		return []c13Driver{
 			{"Get+Put", func(g, i int) { x := p.Get(); guardedTouch(x); p.Put(x) }},
 			{"Make", func(g, i int) { x := p.Make(); guardedTouch(x) }},
 			{"Get", func(g, i int) { _ = p.Get() }},
+			{"bytes.Buffer pool Get+Put", func(g, i int) { b := bufs.Get(); b.WriteString("x"); bufs.Put(b) }},
+			{"byte slice pool Get+Put", func(g, i int) { b := sl.Get(); b = append(b, 1, 2, 3); sl.Put(b) }},
 		}, func() {}
 	}})
 	// ---- synchronized dt.Set ----------------------------------------------------
